@@ -207,13 +207,13 @@ def _run(ctx: Ctx) -> None:
     # ------------------------------------------------------------ 1. TLC: model sanity at small bounds
     flat_q = [":", "/", "B", "@", "H", "Hs", "l", "e", "x", "#", "?", "."]
     small = {"FlatAlphabet": S(flat_q + ["T", "S", "%", "8"]), "FlatLen": 2 if quick else 3,
-             "TailAlphabet": S(["e", "l", "a", ":", "/", "B", "@", "?", "#", ".", "%", "S", "C", "T", "8", "[", "]", "i"]),
+             "TailAlphabet": S(["e", "l", "a", ":", "/", "B", "@", "?", "#", ".", "%", "S", "T", "8", "[", "i"]),
              "TailLen": 2 if quick else 3, "PrefixSchemes": S(["H", "Hs"]), "PrefixSlashes": S(["/", "B"]), "LeadLen": 2 if quick else 3, "HostLen": 2 if quick else 3, "BaseScheme": "H"}
     sanity = ["KindTotal", "WhitespaceInvisible", "BackslashIsSlash", "FragmentIrrelevant", "PathAbsoluteStays",
               "EscapeIsNoDelimiter"]
     fams = [f + "(0)" for f in ("RtFlat", "RtTails", "RtNeigh", "RtLead", "RtHosts", "RtAuth", "RtV6", "OrigFlat", "OrigTails", "OrigNeigh", "OrigLead")]
     for base in (("H",) if quick else ("H", "Hs")):
-        enumerate_families(ctx, "data", "Url", [f for f in fams if not (quick and ("Neigh" in f or "RtAuth" in f))],
+        enumerate_families(ctx, "data", "Url", [f for f in fams if not ((quick or base == "Hs") and ("Neigh" in f or "RtAuth" in f))],
                            constants={**small, "BaseScheme": base, **({"TailLen": 2} if base == "Hs" else {})}, invariants=sanity,
                            name=f"Url:model-sanity(base={base})", emit=False)
 
